@@ -6,6 +6,8 @@
 
 mod burnutil;
 mod common;
+mod e2;
+mod zoo;
 mod props;
 mod refs;
 
